@@ -12,6 +12,14 @@ def gen(chk, mdl):
     srcs += ["s://h/a?q", "s://h/a#f", "s://h?q", "s://u@h/a", "s://h:8/a", "s://g/a", "t://h/a", "s://[::1]/a", "s://1.2.3.4/a", "s://[v1.x]/a", "//h/a", "a", "", "s:a?q#f"]
     bases = [t for t in uris.valid_texts(mdl, uris.small_texts(2 if q else 3, alphabet=A, auths=(None, "//h"), schemes=("s",), queries=(None, "q")))]
     bases += ["s://u@h/a", "s://h:8/a", "s://[::1]/x", "s://1.2.3.4/x", "s://[v1.x]/x", "//h/a", "a/b", ""]
+    # authorities that differ in one place only: every byte position of an IPv4 / IPv6 address, the last character of a
+    # registered name or IPvFuture literal, user info, port (the authority comparison must see all of them)
+    fam = ["s://10.0.0.1", "s://10.0.0.2", "s://10.0.3.1", "s://10.4.0.1", "s://5.0.0.1",
+           "s://[2001:db8:0:1::10]", "s://[2001:db8:0:1::20]", "s://[2001:db8:0:1:0:0:1:10]", "s://[2001:db8:0:2::10]", "s://[2002:db8:0:1::10]", "s://[::ffff:1.2.3.4]", "s://[::ffff:1.2.3.5]",
+           "s://[v1.abc]", "s://[v1.abd]", "s://[v2.abc]", "s://hostname", "s://hostnamf", "s://iostname", "s://u@hostname", "s://v@hostname", "s://hostname:80", "s://hostname:81"]
+    for h in fam:
+        for pth in ("/app/index.html", "/app/login", ""):
+            srcs.append(h + pth); bases.append(h + pth)
     # dot segments in source and base (the property quantifies over all absolute URIs, not only normalised ones)
     dotted = uris.valid_texts(mdl, uris.small_texts(3, alphabet=["a", ".", "..", "b"], auths=("//h",), schemes=("s",), queries=(None,)))
     srcs += dotted; bases += dotted
